@@ -62,7 +62,7 @@ PROPERTIES['C06'] = {
     'level_note': _DOC_NOTE + ' The re-parse speaks for the concrete text of each path.',
 }
 PROPERTIES['C19'] = {
-    'modules': ['harness.rep_ops'], 'budget': {'quick': 900, 'thorough': 3300},
+    'modules': ['harness.rep_ops', 'harness.c09_values'], 'budget': {'quick': 900, 'thorough': 3300},
     'level_text': _DOC_TEXT % 'text, token identities and identity-level tree dump before vs after every refused call',
     'level_note': _DOC_NOTE,
 }
@@ -74,6 +74,12 @@ PROPERTIES['C13'] = {
                   'arithmetic, an independent evaluator of the printed text and a re-parse; operands and their documents compared before/after.',
     'level_note': 'Finite configuration space (15 shapes, 5 scalars, 4 operators, 3 modes, 4 attachments; chains of <= 2); numeric literals are '
                   'concrete. Trusted: CrossHair path exhaustion, decimal, the 30-line evaluator.',
+}
+
+PROPERTIES['C09'] = {
+    'modules': ['harness.c09_values'], 'budget': {'quick': 900, 'thorough': 3300},
+    'level_text': _DOC_TEXT % 'read-back, a dictionary of all other value properties before/after, a record-of-optionals model for the cost and payee/narration groups, and the same readings on the re-parsed text',
+    'level_note': _DOC_NOTE + ' Property ordinals and value choices are found by introspection of the descriptor objects, so new properties are covered automatically.',
 }
 
 NOT_APPLICABLE = {
